@@ -223,8 +223,8 @@ def r_pickler_name(e, R):
     for q in a.manager_funcs:
         f = e.prog.funcs[q]
         for c in func_nodes(f):
-            if isinstance(c, ast.Call) and e.receiver_objs(f, c, ("put",)) & a.callq and c.args and isinstance(c.args[0], ast.Call):
-                cl = {v[1] for v in e.pt.ev(f, c.args[0].func) if v[0] == "class"}
+            if isinstance(c, ast.Call) and e.receiver_objs(f, c, ("put",)) & a.callq and c.args:
+                cl = {o[2] for o in e.objs(f, c.args[0]) if o[0] == "obj" and o[2] in e.prog.classes}
                 if cl:
                     ci = e.prog.classes[sorted(cl)[0]]
     if ci is None:
